@@ -1,7 +1,8 @@
 """C05 — all features agree on which definition a name denotes (library level)."""
-import sys
+import collections, json, os, random, shutil, sys, tempfile
 
-import runner, ws_prop
+import core, runner, ws_prop
+from common_ws import usage_positions, def_positions
 
 PID = "C05"
 MODULE = "Check.C05"
@@ -12,8 +13,13 @@ shrinkable = True
 RULE = ("generators W and W-chains; for every file: get_available_fixtures next to find_closest_definition and "
         "resolve_fixture_for_file for EVERY name known to the index (visible or not); non-trivial = some conftest/link "
         "provides a name; distinct = distinct tag multiset")
-ASSUMPTIONS = ["virtual workspaces only", "ASCII identifiers and lines",
-               "handler-level agreement (hover, implementation, call hierarchy, inlay hints, completion) is the H2 part of this check"]
+ASSUMPTIONS = ["library part: virtual workspaces, ASCII identifiers and lines",
+               "handler part (H2): the real binary over stdio on the same generated workspaces written to a temporary directory: at every usage "
+               "token go-to-definition, hover, go-to-implementation and call-hierarchy preparation must name one definition; every inlay hint "
+               "must carry the return type of the definition go-to-definition selects for its parameter; the documentation of the completion "
+               "entry of a name must be the hover text of the definition resolution selects for the file; a code lens count must equal the "
+               "number of references the server lists. The hover text of a definition is rebuilt from the library's own record of it "
+               "(from-path, name, return type, docstring: a ten-line copy of format_fixture_documentation)"]
 
 
 def add_queries(ws, steps, stdlib):
@@ -59,5 +65,202 @@ def corpus(stdlib):
 nontrivial = ws_prop.nontrivial_default
 
 
+def as_list(x):
+    return [] if x is None else (x if isinstance(x, list) else [x])
+
+
+def doc_text(d, root):
+    """providers/mod.rs format_fixture_documentation"""
+    rel = d["path"][len(root) + 1:] if d["path"].startswith(root + "/") else os.path.basename(d["path"])
+    s = "**from** `%s`\n```python\n@pytest.fixture\ndef %s(...)%s:\n```" % (rel, d["name"], (" -> " + d["ret"]) if d["ret"] else "")
+    if d["doc"]:
+        s += "\n\n---\n\n" + d["doc"]
+    return s
+
+
+def explore_handlers(r, rnd, n, stdlib):
+    """H2: the handlers of the real server against each other, on generated workspaces on disk"""
+    import lsp
+    h1, _ = core.build_harness()
+    binp = core.build_binary()
+    base = os.path.realpath(tempfile.mkdtemp(prefix="verif_c05_"))
+    bad, stats, tags = [], collections.Counter(), collections.Counter()
+    try:
+        for i in range(n):
+            ws = ws_prop.gen_ws(7000 + i, rnd)
+            wroot = "/" + ws["order"][0].split("/")[1]
+            root = os.path.join(base, "w%d" % i)
+            project = {}
+            for p in ws["order"]:
+                if "site-packages" in p or p in ws["plugins"]:
+                    continue
+                q = os.path.join(root, os.path.relpath(p, wroot))
+                os.makedirs(os.path.dirname(q), exist_ok=True)
+                open(q, "w").write(ws["files"][p])
+                project[q] = ws["files"][p]
+            if not project:
+                continue
+            # an installed plugin (venv entry point): its fixtures are third-party, resolvable, and no project symbols
+            sp = os.path.join(root, ".venv", "lib", "python3.11", "site-packages")
+            third_file = os.path.join(sp, "pytest_h2", "plugin.py")
+            third_names = ["h2_third"] + ([ws["names"][0]] if rnd.random() < 0.5 else [])
+            os.makedirs(os.path.join(sp, "pytest_h2"), exist_ok=True)
+            os.makedirs(os.path.join(sp, "pytest_h2-1.0.dist-info"), exist_ok=True)
+            open(os.path.join(sp, "pytest_h2", "__init__.py"), "w").write("")
+            open(third_file, "w").write("import pytest\n" + "".join("\n@pytest.fixture\ndef %s() -> int:\n    return 1\n" % x for x in third_names))
+            open(os.path.join(sp, "pytest_h2-1.0.dist-info", "entry_points.txt"), "w").write("[pytest11]\nh2 = pytest_h2.plugin\n")
+            tags.update(ws["tags"])
+            names = sorted(set(ws["names"]))
+            ops = [{"op": "scan", "path": root}, {"op": "dump"}]
+            obs, _ = core.run_h1(h1, [{"id": 0, "ops": ops}], "C05_h2")
+            o = obs[0]["obs"]
+            defs = {}
+            for _nm, ds in o[1]["definitions"]:
+                for d in ds:
+                    defs.setdefault((d["path"], d["line"]), []).append(d)
+
+            def fail(why, **kw):
+                bad.append(dict({"why": why, "files": {os.path.relpath(q, root): tt for q, tt in project.items()}}, **kw))
+
+            srv = lsp.Server(binp, root=root, timeout=30)
+            try:
+                srv.wait_for_log("Workspace scan complete", timeout=30)
+                # project symbols: exactly the definitions that are not third-party
+                all_defs = [d for ds in defs.values() for d in ds]
+                want_syms = sorted((d["path"], d["line"], d["name"]) for d in all_defs if not d["third"])
+                got_syms = sorted((lsp.uri_to_path(x["location"]["uri"]), x["location"]["range"]["start"]["line"] + 1, x["name"])
+                                  for x in (srv.workspace_symbol("") or []))
+                stats["workspace_symbol"] += 1
+                if got_syms != want_syms:
+                    fail("workspace symbols are not exactly the project (non third-party) fixture definitions",
+                         extra=[list(x) for x in got_syms if x not in want_syms][:5], missing=[list(x) for x in want_syms if x not in got_syms][:5])
+                if not any(d["third"] for d in all_defs):
+                    fail("the fixtures of the installed entry-point plugin were not indexed as third-party", plugin=third_file[len(root) + 1:])
+                for q in sorted(project) + [third_file]:
+                    want_ds = sorted((d["line"], d["name"]) for d in all_defs if d["path"] == q and not d["third"])
+                    got_ds = sorted((x["selectionRange"]["start"]["line"] + 1, x["name"]) for x in (srv.document_symbol(q) or []))
+                    stats["document_symbol"] += 1
+                    if got_ds != want_ds:
+                        fail("document symbols are not exactly the project fixture definitions of the file", file=q[len(root) + 1:], got=got_ds, expected=want_ds)
+                    if q == third_file and (srv.code_lens(q) or []):
+                        fail("code lenses are shown for third-party definitions", file=q[len(root) + 1:])
+                for q in sorted(project):
+                    text = project[q]
+                    uses = usage_positions(text, stdlib)
+                    if not uses:
+                        continue
+                    srv.open(q, text)
+                    by_end, plain_hover = {}, {}
+                    own_def_lines = collections.defaultdict(set)
+                    for (dn, dl, _ds, _de) in def_positions(text, stdlib):
+                        own_def_lines[dn].add(dl)
+                    for (line, s, e, name) in uses:
+                        l0 = line - 1
+                        c = rnd.randint(s, max(s, e - 1))
+                        at = {"file": os.path.relpath(q, root), "line": l0, "character": c, "name": name}
+                        locs = as_list(srv.definition(q, l0, c))
+                        hov = srv.hover(q, l0, c)
+                        stats["positions"] += 1
+                        d = None
+                        if locs:
+                            key = (lsp.uri_to_path(locs[0]["uri"]), locs[0]["range"]["start"]["line"] + 1)
+                            cands = [x for x in defs.get(key, []) if x["name"] == name] or defs.get(key, [])
+                            if not cands:
+                                fail("go-to-definition lands where the index has no fixture", at=at, location=locs[0])
+                                continue
+                            d = cands[0]
+                        by_end[(l0, e)] = d
+                        want = doc_text(d, root) if d else None
+                        got = hov["contents"]["value"] if hov else None
+                        if want != got:
+                            fail("hover does not describe the definition go-to-definition navigates to", at=at, hover=got, expected=want)
+                        elif got is not None and not any(dl <= line <= dl + 30 for dl in own_def_lines.get(name, ())):
+                            plain_hover.setdefault(name, got)
+                        stats["hover"] += 1
+                        for loc in as_list(srv.implementation(q, l0, c)):
+                            if d is None or lsp.uri_to_path(loc["uri"]) != d["path"] or loc["range"]["start"]["line"] + 1 not in (d["line"], d["yield"]):
+                                fail("go-to-implementation does not land in the definition go-to-definition selects", at=at, location=loc,
+                                     definition=d and [d["path"][len(root) + 1:], d["line"], d["yield"]])
+                            stats["implementation"] += 1
+                        for it in as_list(srv.prepare_call_hierarchy(q, l0, c)):
+                            if d is None or it["name"] != d["name"] or lsp.uri_to_path(it["uri"]) != d["path"] or it["selectionRange"]["start"]["line"] + 1 != d["line"]:
+                                fail("call-hierarchy preparation names another definition than go-to-definition", at=at, item=it,
+                                     definition=d and [d["path"][len(root) + 1:], d["line"]])
+                            stats["prepare"] += 1
+                    # inlay hints: the type shown behind a parameter is that of the definition it resolves to
+                    nlines = text.count("\n") + 2
+                    for h in srv.inlay_hint(q, {"start": {"line": 0, "character": 0}, "end": {"line": nlines, "character": 0}}) or []:
+                        k = (h["position"]["line"], h["position"]["character"])
+                        stats["inlay"] += 1
+                        if k not in by_end:
+                            continue
+                        d = by_end[k]
+                        label = h["label"] if isinstance(h["label"], str) else "".join(x["value"] for x in h["label"])
+                        if d is None or not d["ret"] or label != ": " + d["ret"]:
+                            fail("an inlay hint shows another type than the definition go-to-definition selects for that parameter returns",
+                                 at={"file": os.path.relpath(q, root), "line": k[0], "character": k[1]}, label=label,
+                                 definition=d and [d["path"][len(root) + 1:], d["line"], d["ret"]])
+                    # completion: the entry of a name documents the definition the hover at a plain use of that name
+                    # in this file describes (same process: what a conftest-imported name denotes depends on the
+                    # registration order of that process, C08's listed finding)
+                    line, s, e, name = uses[0]
+                    comp = srv.completion(q, line - 1, e)
+                    items = (comp or {}).get("items", []) if isinstance(comp, dict) else (comp or [])
+                    for it in items:
+                        if it["label"] not in plain_hover:
+                            continue
+                        docv = it.get("documentation")
+                        docv = docv.get("value") if isinstance(docv, dict) else docv
+                        stats["completion"] += 1
+                        if docv != plain_hover[it["label"]]:
+                            fail("the completion entry of a name documents another definition than hover describes at a use of that name in the same file",
+                                 at={"file": os.path.relpath(q, root), "line": line - 1, "character": e, "name": it["label"]},
+                                 documentation=docv, hover_at_use=plain_hover[it["label"]])
+                    # code lenses: the count is the number of references the server lists
+                    for cl in srv.code_lens(q) or []:
+                        args = (cl.get("command") or {}).get("arguments") or []
+                        title = (cl.get("command") or {}).get("title", "")
+                        if len(args) < 3:
+                            continue
+                        refs = as_list(srv.references(q, args[1], args[2], include_declaration=False))
+                        stats["code_lens"] += 1
+                        nref = len([x for x in refs if not (x["range"]["start"]["line"] == args[1] and x["range"]["start"]["character"] == args[2]
+                                                            and lsp.uri_to_path(x["uri"]) == q)])    # the handler lists the declaration too
+                        # incoming calls of the call hierarchy prepared on that definition: one per reference
+                        for it in as_list(srv.prepare_call_hierarchy(q, args[1], args[2])):
+                            if it["selectionRange"]["start"]["line"] != args[1]:
+                                continue
+                            inc = srv.incoming_calls(it) or []
+                            stats["incoming"] += 1
+                            if len(inc) != nref:
+                                fail("the incoming calls of a definition are not its references",
+                                     at={"file": os.path.relpath(q, root), "line": args[1], "character": args[2]}, incoming=len(inc), references=nref,
+                                     item={"name": it["name"], "line": it["selectionRange"]["start"]["line"]})
+                        if title != ("1 usage" if nref == 1 else "%d usages" % nref):
+                            fail("a code lens count differs from the number of references the server lists for that definition",
+                                 at={"file": os.path.relpath(q, root), "line": args[1], "character": args[2]}, title=title, references=nref)
+            finally:
+                try:
+                    srv.shutdown()
+                except Exception:
+                    pass
+            stats["workspaces"] += 1
+    finally:
+        shutil.rmtree(base, ignore_errors=True)
+    return bad, stats, tags
+
+
 def run(r):
+    quick = r.tier == "quick"
+    stdlib = set(core.tables()["stdlib_modules"])
+    rnd = random.Random(r.seed * 7 + 5)
+    bad, stats, tags = explore_handlers(r, rnd, int(os.environ.get("VERIF_H2_WORKSPACES", 10 if quick else 120)), stdlib)
+    seen = set()
+    for b in bad:
+        if b["why"] in seen:
+            continue
+        seen.add(b["why"])
+        r.violation(dict({"property": PID, "part": "handlers"}, **b), "h2_%d" % len(seen))
+    r.notes.append("handler part: %s" % json.dumps(dict(stats)))
+    r.extra_coverage = {"handler_part": dict(stats), "handler_input_distribution": dict(tags)}
     return runner.drive_ws(r, sys.modules[__name__])
